@@ -20,7 +20,12 @@ pub enum Sym {
     Opt(Vec<Alt>),
     Rep(Vec<Alt>),
     Grp(Vec<Alt>),
+    /// a terminal or non-terminal with an AST-control suffix (index into ATTRS)
+    Attr(Box<Sym>, u8),
 }
+
+/// AST-control suffixes: cut operator, member names (incl. a clashing pair), user types
+pub const ATTRS: [&str; 6] = ["^", "@m0", "@m1", ": UT0", "@m0: UT1", "@val"];
 
 pub type Alt = Vec<Sym>;
 
@@ -46,6 +51,9 @@ pub struct Scanner {
 
 #[derive(Clone, Debug, Serialize, Deserialize, PartialEq, Eq)]
 pub struct Gram {
+    /// extra declarations (%user_type, %nt_type, %t_type, comments)
+    #[serde(default)]
+    pub decls: Vec<String>,
     pub lalr: bool,
     pub rules: Vec<Rule>,
     pub terminals: Vec<Term>,
@@ -286,7 +294,72 @@ pub fn generate(rng: &mut Rng) -> Gram {
         }
     }
 
+    // AST control, user types and clash-prone names (type generation, name generation)
+    let mut decls = vec![];
+    if rng.chance(1, 2) {
+        fn decorate(rng: &mut Rng, alts: &mut Vec<Alt>, used: &mut bool) {
+            for a in alts.iter_mut() {
+                for s in a.iter_mut() {
+                    match s {
+                        Sym::T(_) | Sym::N(_) => {
+                            if rng.chance(1, 6) {
+                                let inner = s.clone();
+                                let code = rng.below(ATTRS.len() as u64) as u8;
+                                // user types on non-terminals only
+                                let code = if matches!(inner, Sym::T(_)) && (code == 3 || code == 4) { 0 } else { code };
+                                if code == 3 || code == 4 {
+                                    *used = true;
+                                }
+                                *s = Sym::Attr(Box::new(inner), code);
+                            }
+                        }
+                        Sym::Opt(x) | Sym::Rep(x) | Sym::Grp(x) => decorate(rng, x, used),
+                        Sym::Attr(..) => {}
+                    }
+                }
+            }
+        }
+        let mut used = false;
+        for r in rules.iter_mut().take(n_rules) {
+            decorate(rng, &mut r.alts, &mut used);
+        }
+        if used || rng.chance(1, 3) {
+            decls.push("%user_type UT0 = crate::ut::UT0".to_string());
+            decls.push("%user_type UT1 = crate::ut::UT1".to_string());
+        }
+        if rng.chance(1, 3) && n_rules > 1 {
+            let i = 1 + rng.usize_below(n_rules - 1);
+            decls.push(format!("%nt_type {} = crate::nt::T{}", rules[i].name, i));
+        }
+        if rng.chance(1, 5) {
+            decls.push("%t_type crate::tt::Tok".to_string());
+        }
+    }
+    if rng.chance(1, 3) {
+        decls.push("%line_comment \"//\"".to_string());
+    }
+    if rng.chance(1, 3) && n_rules > 1 {
+        // names that collide with the helper names parol generates for rule N0 / N1
+        let clash = ["N0Opt", "N0List", "N0Group", "N0Suffix", "N1Suffix", "N0Opt0", "N0Suffix0", "N1List"];
+        let mut free: Vec<&str> = clash.to_vec();
+        let n = rng.range(1, 2) as usize;
+        for _ in 0..n {
+            let i = 1 + rng.usize_below(n_rules - 1);
+            if rules[i].name.starts_with('N') && rules[i].name.len() <= 3 && !free.is_empty() {
+                let k = rng.usize_below(free.len());
+                let new_name = free.remove(k).to_string();
+                for d in decls.iter_mut() {
+                    if d.starts_with(&format!("%nt_type {} ", rules[i].name)) {
+                        *d = d.replacen(&rules[i].name, &new_name, 1);
+                    }
+                }
+                rules[i].name = new_name;
+            }
+        }
+    }
+
     Gram {
+        decls,
         lalr,
         rules,
         terminals,
@@ -332,6 +405,10 @@ fn render_alt(g: &Gram, a: &Alt, out: &mut String) {
                 out.push_str(&format!("\"{}\"", term.text));
             }
             Sym::N(n) => out.push_str(&g.rules[*n].name),
+            Sym::Attr(inner, code) => {
+                render_alt(g, &vec![(**inner).clone()], out);
+                out.push_str(ATTRS[*code as usize % ATTRS.len()]);
+            }
             Sym::Opt(a) => {
                 out.push_str("[ ");
                 render_alts(g, a, out);
@@ -376,6 +453,10 @@ pub fn render(g: &Gram) -> String {
     if g.lalr {
         out.push_str("%grammar_type 'lalr(1)'\n");
     }
+    for d in &g.decls {
+        out.push_str(d);
+        out.push('\n');
+    }
     render_transitions(g, &g.initial_transitions, "", &mut out);
     for s in &g.scanners {
         out.push_str(&format!("%scanner {} {{\n", s.name));
@@ -397,10 +478,21 @@ pub fn render(g: &Gram) -> String {
 
 fn strip_rule_refs(alts: &mut Vec<Alt>, removed: usize) {
     for a in alts.iter_mut() {
-        a.retain(|s| !matches!(s, Sym::N(n) if *n == removed));
+        a.retain(|s| match s {
+            Sym::N(n) => *n != removed,
+            Sym::Attr(inner, _) => !matches!(**inner, Sym::N(n) if n == removed),
+            _ => true,
+        });
         for s in a.iter_mut() {
             match s {
                 Sym::N(n) if *n > removed => *n -= 1,
+                Sym::Attr(inner, _) => {
+                    if let Sym::N(n) = &mut **inner {
+                        if *n > removed {
+                            *n -= 1;
+                        }
+                    }
+                }
                 Sym::Opt(x) | Sym::Rep(x) | Sym::Grp(x) => strip_rule_refs(x, removed),
                 _ => {}
             }
@@ -418,6 +510,8 @@ fn remove_rule(g: &Gram, idx: usize) -> Option<Gram> {
         return None;
     }
     let mut h = g.clone();
+    let removed_name = h.rules[idx].name.clone();
+    h.decls.retain(|d| !d.starts_with(&format!("%nt_type {removed_name} ")));
     h.rules.remove(idx);
     for r in h.rules.iter_mut() {
         strip_rule_refs(&mut r.alts, idx);
@@ -477,6 +571,12 @@ pub fn reductions(g: &Gram) -> Vec<Gram> {
         }
         out.push(h);
     }
+    // drop declarations
+    for i in 0..g.decls.len() {
+        let mut h = g.clone();
+        h.decls.remove(i);
+        out.push(h);
+    }
     // drop whole rules
     for i in (1..g.rules.len()).rev() {
         if let Some(h) = remove_rule(g, i) {
@@ -507,6 +607,13 @@ pub fn reductions(g: &Gram) -> Vec<Gram> {
                     let sym = l[ai].remove(si);
                     if p.is_empty() || !l[ai].is_empty() {
                         out.push(h.clone());
+                    }
+                    if let Sym::Attr(inner, _) = &sym {
+                        // keep the symbol, drop the suffix
+                        let mut h2 = g.clone();
+                        let l2 = alts_at(&mut h2.rules[ri].alts, p).unwrap();
+                        l2[ai][si] = (**inner).clone();
+                        out.push(h2);
                     }
                     if let Sym::Opt(x) | Sym::Rep(x) | Sym::Grp(x) = sym {
                         // inline the first alternative
